@@ -25,16 +25,13 @@ Definition set_opt (k : N) (v : bytes) (o : opts) : opts := (k, v) :: remove_opt
 Definition keys (o : opts) : list N := map fst o.
 
 (* ---------------------------------------------------------------- *)
-(* AppendOptions: the options are first assembled in a 1024-byte scratch
-   buffer.  [acc] is buffer[:pos].
-     buffer[pos] = code; buffer[pos+1] = byte(len(value))   -- index panics at pos >= 1023
-     pos += 2; pos += copy(buffer[pos:], value)             -- copy truncates silently *)
-Definition SCRATCH : nat := 1024.
-
+(* AppendOptions: the options are first assembled in a scratch buffer sized from the option map
+   (repo commit 7c42d76; it was a fixed 1024 bytes and overran).  [acc] is buffer[:pos].
+     buffer[pos] = code; buffer[pos+1] = byte(len(value)); pos += 2; pos += copy(buffer[pos:], value)
+   pos never exceeds the size, so no index can fail and copy never truncates.  [emit] keeps the
+   [res] type of the earlier model. *)
 Definition emit (acc : bytes) (code : N) (value : bytes) : res bytes :=
-  let pos := List.length acc in
-  if Nat.leb (SCRATCH - 1) pos then Panic else
-  Ok (acc ++ [code; u8 (N.of_nat (List.length value))] ++ firstn (SCRATCH - (pos + 2)) value).
+  Ok (acc ++ [code; u8 (N.of_nat (List.length value))] ++ value).
 
 (* first loop: for _, code := range order { if value, ok := options[code]; ok { emit; delete } } *)
 Fixpoint emit_ordered (order : list N) (o : opts) (acc : bytes) : res (opts * bytes) :=
